@@ -43,15 +43,15 @@ $(B)/trace/%.o: checks/%.cpp | $(B)/trace
 	$(CXX) $(TRACE_FLAGS) -c $< -o $@
 
 # MPI checks see sim/mpi_include/mpi.h instead of the system mpi.h and link the simulated MPI runtime
-$(B)/plain/c11.o $(B)/plain/c12.o: PLAIN_FLAGS += -Isim/mpi_include
-$(B)/asan/c11.o $(B)/asan/c12.o: ASAN_FLAGS += -Isim/mpi_include -fno-sanitize=null
+$(B)/plain/c11.o $(B)/plain/c12.o $(B)/plain/c12_blockval.o: PLAIN_FLAGS += -Isim/mpi_include
+$(B)/asan/c11.o $(B)/asan/c12.o $(B)/asan/c12_blockval.o: ASAN_FLAGS += -Isim/mpi_include -fno-sanitize=null
 $(B)/asan/c11: $(B)/asan/c11.o $(ASAN_SIM) $(B)/asan/sim_mpi.o
 	$(CXX) -fsanitize=address,undefined $^ -o $@
-$(B)/asan/c12: $(B)/asan/c12.o $(ASAN_SIM) $(B)/asan/sim_mpi.o
+$(B)/asan/c12: $(B)/asan/c12.o $(B)/asan/c12_blockval.o $(ASAN_SIM) $(B)/asan/sim_mpi.o
 	$(CXX) -fsanitize=address,undefined $^ -o $@
 $(B)/plain/c11: $(B)/plain/c11.o $(PLAIN_SIM) $(B)/plain/sim_mpi.o
 	$(CXX) -no-pie $^ -o $@
-$(B)/plain/c12: $(B)/plain/c12.o $(PLAIN_SIM) $(B)/plain/sim_mpi.o
+$(B)/plain/c12: $(B)/plain/c12.o $(B)/plain/c12_blockval.o $(PLAIN_SIM) $(B)/plain/sim_mpi.o
 	$(CXX) -no-pie $^ -o $@
 
 # C10 is two translation units (real valued worlds; block / complex valued worlds)
